@@ -51,7 +51,19 @@ func GoEnv() []string {
 		}
 		env = append(env, e)
 	}
-	return append(env, "GOFLAGS=-mod=mod", "GOPROXY=off", "GOCACHE="+filepath.Join(CacheDir(), "gocache"))
+	flags := "GOFLAGS=-mod=mod"
+	if RepoDir != "/repo" {
+		// checks pointed at another checkout (VERIF_REPO): same module, replace directive redirected
+		alt := filepath.Join(CacheDir(), "alt-"+strings.ReplaceAll(strings.Trim(RepoDir, "/"), "/", "_")+".mod")
+		if _, err := os.Stat(alt); err != nil {
+			_ = os.MkdirAll(CacheDir(), 0o755)
+			mod := "module verif\n\ngo 1.25\n\nrequire github.com/pointlander/peg v0.0.0\n\nreplace github.com/pointlander/peg => " + RepoDir + "\n"
+			_ = os.WriteFile(alt, []byte(mod), 0o644)
+			_ = os.WriteFile(strings.TrimSuffix(alt, ".mod")+".sum", nil, 0o644)
+		}
+		flags += " -modfile=" + alt
+	}
+	return append(env, flags, "GOPROXY=off", "GOCACHE="+filepath.Join(CacheDir(), "gocache"))
 }
 
 // RepoHash hashes the content of every source file of the repository's working tree.
